@@ -57,6 +57,10 @@ func c11Buffer() {
 			batches[i] = append(batches[i], simrt.DrawRange(1, 3))
 		}
 	}
+	if simrt.Chance(1, 15) {
+		batches[0][0] = []int{1030, 1300, 4200}[simrt.Draw(3)] // around thresholds a refactoring might introduce
+		simrt.Probe("huge_batch")
+	}
 	type cplan struct {
 		ops      []int
 		shared   bool
